@@ -1012,6 +1012,11 @@ func (se *SpecEnv) callSpec(c *ast.CallExpr) Value {
 			if sa, oks := a.(*SliceV); oks {
 				// slices: the same window of the same backing object
 				if sb, okt := b.(*SliceV); okt {
+					if sa.Obj != nil && sb.Obj != nil && sa.Obj != sb.Obj && sa.Obj.URowOf != nil && sa.Obj.URowOf == sb.Obj.URowOf && sa.Obj.UVer == sb.Obj.UVer {
+						// two rows read from the same functional slice of slices (at the same version): the same row
+						// when their indices are equal
+						return F.And(F.Eq(sa.Obj.URowIdx, sb.Obj.URowIdx), F.Eq(sa.Off, sb.Off), F.Eq(sa.Len, sb.Len))
+					}
 					if sa.Obj != sb.Obj || !samePath(sa.Path, sb.Path) {
 						return F.False()
 					}
